@@ -848,3 +848,198 @@ def coq_eval_cases(pid, name, cases, ctype, fname, module, shard=60, timeout=900
             return None, out[-600:]
         bad.extend(r)
     return bad, ''
+
+
+# ---------------------------------------------------------------------------------------------
+# shared driver of C06 / C07 (tools/props/c06.py, c07.py are thin wrappers)
+
+FIXED_VECTORS = [[], [1], [1, 0], [0, 1, 1], [1, 1, 0, 1], [2, 1, 0, 2, 1, 0, 1], [1, 2, 0, 1, 3, 0, 0, 1]]
+
+
+def decision_vectors(rnd, n):
+    out = list(FIXED_VECTORS)
+    while len(out) < n:
+        out.append([rnd.choice([0, 1, 1, 2, 3]) for _ in range(rnd.randint(1, 10))])
+    return out[:n]
+
+
+def program_stream(rnd, it):
+    """-> (stream name, source).  Deterministic in (rnd, it)."""
+    k = it % 20
+    if k < 7:
+        return 'main', _progs.gen_function(rnd, _progs.Opts(reads='safe', nested_def=True, max_stmts=14))
+    if k < 10:
+        return 'delete', _progs.gen_function(rnd, _progs.Opts(reads='safe', nested_def=True, delete=True, max_stmts=12))
+    if k < 17:
+        return 'closure', gen_closure_function(rnd, _progs.Opts(reads='safe', max_stmts=14, raise_=(k == 16)))
+    return 'any', _progs.gen_function(rnd, _progs.Opts(reads='any', max_stmts=10))
+
+
+def load_corpus(pid):
+    import os
+    from lib import vlib
+    out = []
+    cdir = os.path.join(vlib.ROOT, 'corpus', pid)
+    if os.path.isdir(cdir):
+        for fnm in sorted(os.listdir(cdir)):
+            if fnm.endswith('.py'):
+                text = open(os.path.join(cdir, fnm)).read()
+                first, rest = text.split('\n', 1)
+                out.append((fnm, rest, eval(first.split(':', 1)[1])))
+    return out
+
+
+def check_property(run, kind, generate):
+    """kind: 'lv' (C07) or 'rd' (C06)."""
+    import os
+    import random
+    import re
+    from lib import vlib
+    pid = run.pid
+    quick = run.tier == 'quick'
+    nprog = 600 if quick else 5000
+    nvec = 10 if quick else 16
+    tie_broken = []
+    try:
+        generate()
+    except Exception as e:  # noqa  (Untranslatable: the source no longer has a recognised shape)
+        tie_broken.append('translator: %s' % e)
+    check_vo = 'Flow/LvCheck.vo' if kind == 'lv' else 'Flow/RdCheck.vo'
+    vlib.standard_proof_step(run, [check_vo])
+    run.rule = ('seeded random functions (tools/gen/progs.py + closure extension tools/export/flow.py: assign/aug/tuple/del/if/while/'
+                'for(+else)/break/continue/return/raise/try-except-else-finally/with-as/nested def reading enclosing variables and '
+                'declaring nonlocal, called at later points; reads only of definitely bound names, plus a stream with maybe-unbound '
+                'reads) x decision vectors driving every test / trip count (0..3) / handler; corpus first; non-trivial = program with a '
+                'loop, try or local function; distinct by source text')
+    rnd = random.Random(run.seed * 7919 + (6 if kind == 'rd' else 7))
+    cases = []
+    meta = []           # index -> (src, fn name, stream)
+    failures = []       # (what, known, replay dict)
+    runs = 0
+    skipped = {}
+    hist = {}
+    seen_src = set()
+    corpus = load_corpus(pid)
+    for it in range(len(corpus) + nprog):
+        if it < len(corpus):
+            sname, src, cdv = ('corpus:' + corpus[it][0], corpus[it][1], corpus[it][2])
+        else:
+            sname, src = program_stream(rnd, it)
+            cdv = None
+        if src in seen_src:
+            continue
+        seen_src.add(src)
+        try:
+            an = Analysis(src)
+        except (Unsupported, skel_mod.Unsupported) as e:
+            skipped['unsupported'] = skipped.get('unsupported', 0) + 1
+            continue
+        except Exception as e:  # noqa
+            failures.append(('analysis raised %s: %s' % (type(e).__name__, e), None, {'program': src}))
+            continue
+        run.count()
+        for kw in ('while', 'for', 'try', 'finally', 'except', 'break', 'continue', 'return', 'raise', 'with', 'else', 'def', 'nonlocal', 'del'):
+            if re.search(r'\b%s\b' % kw, src):
+                hist[kw] = hist.get(kw, 0) + 1
+        if re.search(r'\b(while|for|try|def)\b', src):
+            run.nontriv(src)
+        try:
+            for fi in an.fns.values():
+                idx = len(meta)
+                meta.append((src, fi.fn.name, sname))
+                cases.append(lv_case(an, fi, idx) if kind == 'lv' else rd_case(an, fi, idx))
+        except (Unsupported, skel_mod.Unsupported):
+            skipped['unsupported-export'] = skipped.get('unsupported-export', 0) + 1
+        fi = an.top
+        for dv in ([cdv] if cdv is not None else []) + decision_vectors(rnd, nvec):
+            try:
+                d = Dyn(src, fi, dv)
+            except RecursionError:
+                continue
+            if not d.ok:
+                skipped[str(d.val)] = skipped.get(str(d.val), 0) + 1
+                continue
+            runs += 1
+            fs = liveness_failures(an, fi, d) if kind == 'lv' else reachdef_failures(an, fi, d)
+            for f in fs:
+                failures.append((f['what'], f['known'], {'program': src, 'decisions': list(dv), 'failure': f,
+                                                         'replay': 'bin/check %s --replay <this file>' % pid}))
+            if len(run.samples) < 4 and len(d.inst) > 5 and it >= len(corpus):
+                run.sample({'program': src, 'decisions': dv, 'executed_node_labels': [x.label for x in d.inst if x.label]})
+    run.count(runs)
+    run.extra['programs'] = len(seen_src)
+    run.extra['function_graphs_checked_in_coq'] = len(cases)
+    run.extra['traces_validated_against_impl'] = runs
+    run.extra['runs_outside_the_property'] = skipped
+    run.extra['construct_histogram'] = hist
+
+    module = 'MV.Flow.LvCheck' if kind == 'lv' else 'MV.Flow.RdCheck'
+    bad, err = coq_eval_cases(pid, 'cases', cases, 'lv_case' if kind == 'lv' else 'rd_case',
+                              'lv_failing' if kind == 'lv' else 'rd_failing', module)
+    CODES = {1: 'the model graph cfg_fn is not contained in the graph of cfg.build',
+             2: 'the reported in/out sets are not the fixed point of the generated transfer equations',
+             3: 'the reported sets violate the soundness inclusions for what the nodes read / bind by Python rules',
+             4: 'an annotation (LIVE_VARS_IN / LIVE_VARS_OUT / DEFINITIONS) is not what the node-level solution implies',
+             5: ('DEFINED_FNS_IN is not closed under the graph edges' if kind == 'lv' else
+                 'DEFINED_VARS_IN is not the union over the statement predecessors')}
+    if bad is None:
+        tie_broken.append('model evaluation in Coq failed: ' + err)
+    else:
+        by_code = {}
+        for b in bad:
+            by_code.setdefault(b % 8, []).append(b // 8)
+        run.extra['coq_case_failures'] = {str(k): len(v) for k, v in by_code.items()}
+        for code, idxs in sorted(by_code.items()):
+            if kind == 'lv' and code == 6:
+                run.violation('variables read and declared nonlocal by a reaching local function are not live', {},
+                              classify='liveness-nonlocal-closure-read')
+                continue
+            tie_broken.append('%s (programs e.g. %s)' % (CODES.get(code, 'code %d' % code), idxs[:5]))
+            run.extra.setdefault('coq_failing_examples', []).append({'code': code, 'program': meta[idxs[0]][0], 'function': meta[idxs[0]][1]})
+    # verdict
+    reported = set()
+    unknown = 0
+    for what, known, rp in failures:
+        key = (re.sub(r'\d+', 'N', what.split(':')[0]), known)
+        if key in reported:
+            continue
+        reported.add(key)
+        if known:
+            run.violation(what, rp, classify=known)
+        else:
+            unknown += 1
+            if unknown <= 4:
+                run.violation(what, rp)
+    run.extra['oracle_failure_kinds'] = sorted('%s [%s]' % k for k in reported)
+    if tie_broken and not unknown:
+        ex = run.extra.get('coq_failing_examples', [{}])[0]
+        run.violation('tie between the Coq model and the implementation broke: ' + '; '.join(tie_broken)[:600],
+                      {'broken': tie_broken, 'example': ex,
+                       'searched': '%d real runs of %d programs judged by the CPython oracle: no property-level failure' % (runs, len(seen_src))},
+                      found_input=False)
+    run.assumptions += [
+        'ordinary statements do not raise (runs in which a handler catches an implicit exception are outside the property and skipped)',
+        "C05's guard: no break / continue / return in an except body of a try with finally",
+        'per node, Python\'s reads / binds / deletes are computed from the ast alone (export/flow.py: py_effects) and every instance of a node binds all of them',
+        'each generated statement sits on its own line (line events identify CFG nodes)']
+
+
+def replay_property(path, kind):
+    import json
+    doc = json.load(open(path))
+    rp = doc.get('replay', {})
+    src = rp.get('program')
+    if not src or rp.get('decisions') is None:
+        print(json.dumps(doc, indent=1))
+        return 0
+    an = Analysis(src)
+    d = Dyn(src, an.top, rp['decisions'])
+    print(src)
+    if not d.ok:
+        print('run is outside the property:', d.val)
+        return 0
+    print('decisions', rp['decisions'], '-> executed nodes', [x.label for x in d.inst if x.label])
+    fs = liveness_failures(an, an.top, d) if kind == 'lv' else reachdef_failures(an, an.top, d)
+    for f in fs:
+        print('FAIL', f)
+    return 1 if fs else 0
